@@ -257,3 +257,61 @@ Theorem c03_pass_every_cell_measured : forall regs ncols r c,
   table_measures regs -> before_last_measure (cell_events regs ncols r c) <> None.
 Proof. exact table_measures_every_cell. Qed.
 Print Assumptions c03_pass_every_cell_measured.
+
+(* ---------------------------------------------------------------- source tie
+   (notes/SOURCE_TIE_3.md).  The functions of texttable/decoration/emit.go -
+   commonTemplateLine, commonRenderedLine, the Line* wrappers, the divider sets,
+   HeaderLineRendered / BodyLineRendered - and strings.go's WithinWidthAligned
+   are TRANSLATED from the Go text by tools/go2coq (Generated/EmitSrc.v,
+   regenerated and compared on every run of check.py C03).  For every decoration,
+   width list, divider set, cell strings and alignments, with eol = "\n" as the
+   renderer sets it, the translation returns exactly what the hand model returns:
+   the same bytes, and Panic exactly where the model says Panic.  No hypothesis. *)
+From Tab Require Import Base.GoSem Base.GoText Generated.EmitSrc Proofs.EmitSrcTie.
+
+Theorem c03_source_is_model :
+  (forall d cws left horiz cross right,
+     src_commonTemplateLine (mkEmitter cws d [LF]) left horiz cross right
+     = Done (common_template_line d cws left horiz cross right))
+  /\ (forall d cws ds cells als,
+     src_commonRenderedLine (mkEmitter cws d [LF]) ds cells als = Done (common_rendered_line ds cws cells als))
+  /\ (forall d cws,
+     src_LineHeaderTop (mkEmitter cws d [LF]) = Done (line_header_top d cws)
+     /\ src_LineHeaderBodySep (mkEmitter cws d [LF]) = Done (line_header_body_sep d cws)
+     /\ src_LineBodyTop (mkEmitter cws d [LF]) = Done (line_body_top d cws)
+     /\ src_LineBottom (mkEmitter cws d [LF]) = Done (line_bottom d cws)
+     /\ src_LineSeparator (mkEmitter cws d [LF]) = Done (line_separator d cws))
+  /\ (forall e, src_HeaderDividers e = Done (Ok (header_dividers (e_decor e)))
+                /\ src_BodyDividers e = Done (Ok (body_dividers (e_decor e))))
+  /\ (forall d cws cells als,
+     src_HeaderLineRendered (mkEmitter cws d [LF]) cells als = Done (common_rendered_line (header_dividers d) cws cells als)
+     /\ src_BodyLineRendered (mkEmitter cws d [LF]) cells als = Done (common_rendered_line (body_dividers d) cws cells als))
+  /\ (forall ws available how,
+     src_WithinWidthAligned ws available how = Done (within_width_aligned ws available how)).
+Proof. exact emit_source_is_model. Qed.
+Print Assumptions c03_source_is_model.
+
+(* the same for ANY eol: the model's text with its final [LF] replaced by e.eol
+   (common_rendered_line_eol is common_rendered_line with `++ eol` for `++ [LF]`) *)
+Theorem c03_source_any_eol :
+  (forall e left horiz cross right,
+     src_commonTemplateLine e left horiz cross right
+     = Done (if d_boxless (e_decor e) then Ok [] else
+             bind (template_fields (e_colWidths e) horiz cross) (fun fs =>
+             bind (if (0 <? length (e_colWidths e))%nat then set_last (left :: fs) right else Ok ((left :: fs) ++ [right])) (fun fields =>
+             Ok (concat (fields ++ [e_eol e]))))))
+  /\ (forall e ds cells als,
+     src_commonRenderedLine e ds cells als = Done (common_rendered_line_eol (e_eol e) ds (e_colWidths e) cells als))
+  /\ common_rendered_line_eol [LF] = common_rendered_line.
+Proof. exact emit_source_any_eol. Qed.
+Print Assumptions c03_source_any_eol.
+
+(* property level: with the column widths the layout computes, every rule line
+   the translated source emits is the layout's rule line, flattened (nothing when
+   boxless) *)
+Theorem c03_source_rule_line : forall W d v, 1 <= v_ncols v ->
+  forall l h c r,
+  src_commonTemplateLine (mkEmitter (TextRefine.cwsZ W v) d [LF]) l h c r
+  = Done (Ok (TextRefine.wr d (rule W v l h c r))).
+Proof. exact src_rule_line_is_layout. Qed.
+Print Assumptions c03_source_rule_line.
